@@ -109,9 +109,14 @@ type Nd interface{ NodeID() int }
 type base struct {
 	e  *env
 	id int
-	// configuration values of the node itself (C05: set before the before-initialisation callbacks; they are bound in the
-	// same container step that resolves the injection points, ahead of every dependency fetch, so also every early
-	// reference handed to a cycle partner is already configured)
+}
+
+// configuration values of the node itself (C05: set before the before-initialisation callbacks; they are bound in the same
+// container step that resolves the injection points, ahead of every dependency fetch, so also every early reference handed to
+// a cycle partner is already configured).  Carried by the slot types 3..K and the generic types; slots 1 and 2 have none, so
+// that a component without edges has no property of any kind.
+type cfgPart struct {
+	ce   *env
 	Cfg  string `value:"${verif.cfg:cv}"`
 	CfgN int    `prop:"verif.num:7"`
 	CfgG cfgGrp `prefix:"verif.grp,required=false"`
@@ -122,9 +127,11 @@ type cfgGrp struct {
 	B string
 }
 
+func (b *cfgPart) setCfgEnv(e *env) { b.ce = e }
+
 // cfgOK: the node's configuration values are exactly what this scenario's configuration (or the defaults) prescribe
-func (b *base) cfgOK() bool {
-	if b.e.sc.Conf {
+func (b *cfgPart) cfgOK() bool {
+	if b.ce.sc.Conf {
 		return b.Cfg == "conf" && b.CfgN == 9 && b.CfgG == cfgGrp{3, "g"}
 	}
 	return b.Cfg == "cv" && b.CfgN == 7 && b.CfgG == cfgGrp{}
@@ -603,6 +610,9 @@ func runEngScenario(sc *EngScenario) []map[string]any {
 	for i := 1; i <= sc.N; i++ {
 		c, b := newPoolNode(i, contains(sc.Lazy, i), contains(sc.Runners, i))
 		b.e, b.id = e, i
+		if cc, ok := c.(interface{ setCfgEnv(*env) }); ok {
+			cc.setCfgEnv(e)
+		}
 		e.objs[i], comps[i] = c, c
 		e.objTag[c], e.objNode[c] = "raw", i
 	}
@@ -670,7 +680,7 @@ func runEngScenario(sc *EngScenario) []map[string]any {
 	}
 	r := &rigCore{e: e}
 	r.NodeType = component_definition.PropertyTypeComponent
-	r.Required = true
+	r.Required = sc.Seed%4 != 3 // unset now and then: a tag without a required argument is required all the same
 	r.ExtractHandler = func(meta *component_definition.Meta, field *component_definition.Field) (string, string, bool) {
 		if m, ok := tab[meta.Name()]; ok {
 			if tv, ok := m[field.StructField.Name]; ok {
